@@ -183,7 +183,17 @@ pub fn init() {
             .unwrap_or_default();
         let quiet = QUIET.try_with(|q| q.get()).unwrap_or(false);
         if quiet {
-            let site = current_site();
+            // a panic raised by the library's own code (arithmetic overflow, index, unwrap) names
+            // its site directly; a panic raised inside a dependency (chrono ...) is attributed
+            // to the innermost library frame of the backtrace
+            let site = match info.location() {
+                Some(l) if l.file().contains("/repo/src/") => {
+                    let f = l.file();
+                    let i = f.find("/repo/src/").unwrap() + "/repo/".len();
+                    format!("{}:{}", &f[i..], l.line())
+                }
+                _ => current_site(),
+            };
             let _ = LAST_PANIC.try_with(|p| {
                 *p.borrow_mut() = Some(PanicInfo { message, location, site });
             });
